@@ -126,6 +126,32 @@ def run(db, chk):
             chk.ob(R3, "%s:%s" % (key, name_of(t).split("::")[-1]), ok and not from_base,
                    "%s receives the transaction-file reference from %s" % (name_of(t).split("::")[-1], [x for x in origin_calls(o) if "transaction_file" in x or "String::new" in x]),
                    body.loc(t["ln"]))
+    # ExternalFile.path (row-id / version sequences, fragment-reuse index details kept out of line): wherever such a descriptor
+    # is built for storing, the path is a name relative to its known directory -- its origin contains no location producer
+    R4 = "ORIGIN-external-file"
+    chk.rule(R4, "ExternalFile descriptors are built with a relative name, not with a location derived from the table's base")
+    LOC = ("::indices_dir", "::data_dir", "::versions_dir", "::deletions_dir", "path::Path::child", "Path>::child", "::base_path", "ObjectStore::base")
+    nsites = 0
+    for f in sorted(db.fns.values(), key=lambda f: (f.file, f.line)):
+        if not f.focus or "/src/" not in f.file:
+            continue
+        c = f.cfg
+        for i, j, s in c.aggregates():
+            if not (s["rv"].get("adt") or "").endswith("ExternalFile"):
+                continue
+            have = dict(zip(s["rv"]["fields"], s["rv"]["ops"]))
+            if "path" not in have:
+                continue
+            o = c.op_origins(have["path"], transparent=lambda t: True)
+            if ("arg", 1) in o and not any(x[0] in ("via", "call") for x in o):
+                continue        # a plain conversion (pb <-> domain) copying the field
+            nsites += 1
+            chk.analysed(f)
+            bad = sorted({x[1] for x in o if x[0] in ("via", "call") and x[1] and any(l in x[1] for l in LOC)}) + \
+                sorted({"." + x[1] for x in o if x[0] == "field" and x[1] in ("base", "uri", "base_dir")})
+            chk.ob(R4, "external-file:%s" % f.path.split("::{closure")[0].split("::")[-1], not bad,
+                   "%s stores ExternalFile.path from %s" % (f.path.split("::{closure")[0], bad or "a relative name (no location producer in its origin)"), f.loc(s["ln"]))
+    chk.floor(R4, "ExternalFile constructions outside plain conversions", nsites, 1)
     dp = db.one(r"^io::deletion::deletion_file_path$", file="lance-table/src/io/deletion.rs")
     chk.analysed(dp)
     e = dp.cfg.origins(0, transparent=lambda t: True)
